@@ -12,7 +12,7 @@ Theorem execute_lsource o e sender fs m s s' out k' l' :
   (exists k l, In (k, l) (listings s) /\ lid l = lid l' /\
                (lstatus l' = lstatus l \/ (lstatus l = BeingPrepared /\ lstatus l' = FinalizedReady) \/
                 (lstatus l = FinalizedReady /\ lstatus l' = Closed))) \/
-  (~ In (lid l') (l_used s) /\ lstatus l' = BeingPrepared).
+  (~ In (lid l') (l_used s) /\ lstatus l' = BeingPrepared /\ lid l' < MAX_SAFE_INT).
 Proof.
   intros H Hin. unfold execute in H. step H; [discriminate|]. clear Hc.
   assert (Hsame : listings s' = listings s ->
@@ -24,9 +24,9 @@ Proof.
             (exists k l, In (k, l) (listings s) /\ lid l = lid l' /\
                (lstatus l' = lstatus l \/ (lstatus l = BeingPrepared /\ lstatus l' = FinalizedReady) \/
                 (lstatus l = FinalizedReady /\ lstatus l' = Closed))) \/
-            (~ In (lid l') (l_used s) /\ lstatus l' = BeingPrepared)).
+            (~ In (lid l') (l_used s) /\ lstatus l' = BeingPrepared /\ lid l' < MAX_SAFE_INT)).
   { intros user ok g id a w Hh. apply create_listing_g_inv in Hh.
-    destruct Hh as (va & _ & _ & Hn & _ & _ & _ & _ & -> & _). revert Hin. sstate. intros Hin.
+    destruct Hh as (va & Hmax & _ & Hn & _ & _ & _ & _ & -> & _). revert Hin. sstate. intros Hin. apply max_ok_lt in Hmax.
     apply In_put_source in Hin. destruct Hin as [E | Hin]; [inv E; right; simpl; tauto | left; exists k', l'; tauto]. }
   assert (Hadd : forall sd ok upd chk id, add_to_listing_g sd ok upd chk id s = Ok (s', out) ->
             exists k l, In (k, l) (listings s) /\ lid l = lid l' /\
@@ -81,16 +81,16 @@ Qed.
 (** The same for buckets: an entry with the same id before, or a creation under an unused id. *)
 Theorem execute_bsource o e sender fs m s s' out k' b' :
   Inv s -> execute o e sender fs m s = Ok (s', out) -> In (k', b') (buckets s') ->
-  (exists k b, In (k, b) (buckets s) /\ snd k = snd k') \/ ~ In (snd k') (b_used s).
+  (exists k b, In (k, b) (buckets s) /\ snd k = snd k') \/ (~ In (snd k') (b_used s) /\ snd k' < MAX_SAFE_INT).
 Proof.
   intros I H Hin. unfold execute in H. step H; [discriminate|]. clear Hc.
   assert (Hsame : buckets s' = buckets s -> exists k b, In (k, b) (buckets s) /\ snd k = snd k').
   { intros E. rewrite E in Hin. exists k', b'. tauto. }
   assert (Hcreate : forall c ok g id, create_bucket_g c ok g id s = Ok (s', out) ->
-            (exists k b, In (k, b) (buckets s) /\ snd k = snd k') \/ ~ In (snd k') (b_used s)).
-  { intros c ok g id Hh. apply create_bucket_g_inv in Hh. destruct Hh as (_ & Hn & _ & _ & -> & _).
+            (exists k b, In (k, b) (buckets s) /\ snd k = snd k') \/ (~ In (snd k') (b_used s) /\ snd k' < MAX_SAFE_INT)).
+  { intros c ok g id Hh. apply create_bucket_g_inv in Hh. destruct Hh as (Hmax & Hn & _ & _ & -> & _). apply max_ok_lt in Hmax.
     revert Hin. sstate. intros Hin. apply In_put_source in Hin.
-    destruct Hin as [E | Hin]; [inv E; right; simpl; exact Hn | left; exists k', b'; tauto]. }
+    destruct Hin as [E | Hin]; [inv E; right; simpl; tauto | left; exists k', b'; tauto]. }
   assert (Hadd : forall sd ok upd id, add_to_bucket_g sd ok upd id s = Ok (s', out) ->
             exists k b, In (k, b) (buckets s) /\ snd k = snd k').
   { intros sd ok upd id Hh. apply add_to_bucket_g_inv in Hh.
@@ -161,7 +161,7 @@ Proof.
   - (* present afterwards: its source has the same id and an earlier-or-equal status *)
     apply find_by_id_In in E'. destruct E' as [Hin' Hid'].
     rewrite (lrank_present s' id k' l' I' Hin' Hid').
-    destruct (execute_lsource _ _ _ _ _ _ _ _ _ _ H Hin') as [(k & l & Hin & Hid & Hst) | [Hn Hst]].
+    destruct (execute_lsource _ _ _ _ _ _ _ _ _ _ H Hin') as [(k & l & Hin & Hid & Hst) | [Hn [Hst _]]].
     + rewrite (lrank_present s id k l I Hin); [|congruence].
       destruct Hst as [-> | [[-> ->] | [-> ->]]]; simpl; lia.
     + rewrite lrank_absent.
